@@ -178,12 +178,12 @@ vk_harness!(c15_delete_removes_exactly_the_range, {
     core::mem::forget(l);
 });
 
-//@ prop: C15
+//@ prop: C97X
 //@ tier: quick
 //@ unwind: 12
-//@ encodes: Listing::insert; Listing::remove
-//@ bounds: 3 stored lines with arbitrary numbers n0<n1<n2<=65529 (state built directly); one further insert (any number, new or existing) and one removal (any number)
-vk_harness!(c15_insert_replaces_remove_deletes, {
+//@ encodes: Listing::insert
+//@ bounds: 3 stored lines with arbitrary numbers n0<n1<n2<=65529 (state built directly); one further numbered line (any number, new or existing)
+vk_harness!(c15_numbered_line_inserts_or_replaces, {
     let mut l = Listing::default();
     let s = three_lines(&mut l);
     let n = vk::any_u16();
@@ -198,20 +198,39 @@ vk_harness!(c15_insert_replaces_remove_deletes, {
         Some(Token::Whitespace(9)) => {}
         _ => vk_check!(false, "C15: the stored line is the last text entered for its number"),
     }
-    let m = vk::any_u16();
-    vk::assume(m <= MAXLN);
-    let was = stored(&l, m);
-    let before = count(&l);
-    let removed = l.remove(Some(m));
-    vk_check!(removed.is_some() == was, "C15: a bare number deletes that line and nothing else");
-    vk_check!(!stored(&l, m) && count(&l) == before - if was { 1 } else { 0 }, "C15: deletion removes exactly one line, or none");
     vk_cover!(existed, "reach: replace");
-    vk_cover!(!was, "reach: delete absent line");
+    vk_cover!(!existed, "reach: new line");
     core::mem::forget(l);
     core::mem::forget(old);
-    core::mem::forget(removed);
 });
 
+//@ prop: C97X
+//@ tier: quick
+//@ unwind: 12
+//@ encodes: Listing::remove
+//@ bounds: 3 stored lines with arbitrary numbers n0<n1<n2<=65529 (state built directly); one bare line number (any number, stored or not)
+vk_harness!(c15_bare_number_deletes_that_line_only, {
+    let mut l = Listing::default();
+    let s = three_lines(&mut l);
+    let m = vk::any_u16();
+    vk::assume(m <= MAXLN);
+    let was = m == s[0] || m == s[1] || m == s[2];
+    let removed = l.remove(Some(m));
+    vk_check!(removed.is_some() == was, "C15: a bare number deletes that line and nothing else");
+    vk_check!(!stored(&l, m) && count(&l) == 3 - if was { 1 } else { 0 }, "C15: deletion removes exactly one line, or none");
+    let mut i = 0;
+    while i < 3 {
+        if s[i] != m {
+            vk_check!(stored(&l, s[i]), "C15: deleting a line must keep every other line");
+        }
+        i += 1;
+    }
+    vk_check!(well_ordered(&l), "C15: the store stays ordered by line number");
+    vk_cover!(was, "reach: delete present line");
+    vk_cover!(!was, "reach: delete absent line");
+    core::mem::forget(l);
+    core::mem::forget(removed);
+});
 
 // ---------------------------------------------------------------------------------------------------------------
 // C14: RENUM's numbering (the change map and the rebuilt store)
@@ -270,3 +289,42 @@ vk_harness!(c14_renum_numbering_2, {
     core::mem::forget(l);
 });
 
+
+// ---------------------------------------------------------------------------------------------------------------
+// C03: a listing snapshot handed to the UI must not make a later edit crash (copy-on-write)
+
+//@ prop: C97
+//@ tier: quick
+//@ unwind: 12
+//@ encodes: Listing::clone (snapshot, as Runtime::get_listing hands out); Listing::insert; Listing::remove; Listing::remove_range
+//@ bounds: listing with 3 lines n0<n1<n2 (arbitrary numbers), one live snapshot; then one edit: insert (any number), bare-number delete (any number) or DELETE a-b (any range)
+vk_harness!(c03_snapshot_does_not_block_edits, {
+    let mut l = Listing::default();
+    let s = three_lines(&mut l);
+    let snapshot = l.clone(); // what the terminal keeps for line completion / SAVE
+    let which = vk::any_below(3);
+    let m = vk::any_u16();
+    vk::assume(m <= MAXLN);
+    match which {
+        0 => {
+            let _ = l.insert(one_token_line(m, 7));
+            vk_check!(stored(&l, m), "C15: the entered line is stored");
+        }
+        1 => {
+            let _ = l.remove(Some(m));
+            vk_check!(!stored(&l, m), "C15: the bare number deletes the line");
+        }
+        _ => {
+            let b = vk::any_u16();
+            vk::assume(m <= b && b <= MAXLN);
+            let _ = l.remove_range(Some(m)..=Some(b));
+        }
+    }
+    // the snapshot is a snapshot: it still shows the program as it was
+    vk_check!(count(&snapshot) == 3 && stored(&snapshot, s[0]) && stored(&snapshot, s[1]) && stored(&snapshot, s[2]),
+        "C03: an edit must not change (or be blocked by) a listing snapshot that is still alive");
+    vk_cover!(which == 0, "reach: insert with live snapshot");
+    vk_cover!(which == 2, "reach: delete range with live snapshot");
+    core::mem::forget(l);
+    core::mem::forget(snapshot);
+});
